@@ -78,7 +78,6 @@ def header_bytes(h, rng=None):
 def _setup(workdir):
     """Real Site over a directory of static files; pull producers are driven by a Cooperator on a
     bounded FIFO of scheduled calls (the harness's stand-in for the reactor loop)."""
-    from twisted.internet import _producer_helpers, task
     from twisted.logger import globalLogBeginner
     from twisted.web import server, static
 
@@ -88,26 +87,9 @@ def _setup(workdir):
         globalLogBeginner.beginLoggingTo([lambda e: None], redirectStandardIO=False, discardBuffer=True)
     except Exception:
         pass
-    # the harness's stand-in for the reactor loop: a FIFO of scheduled calls, pumped one call at a time and bounded
-    # (a producer that never finishes must not hang the check: it is an observation, `done = False`)
-    queue = []
-
-    class _Call:
-        def __init__(self, f):
-            self.f, self.cancelled = f, False
-
-        def cancel(self):
-            self.cancelled = True
-
-    def schedule(f):
-        c = _Call(f)
-        queue.append(c)
-        return c
-    coop = task.Cooperator(scheduler=schedule, terminationPredicateFactory=lambda: (lambda: True))
-    _producer_helpers.cooperate = coop.cooperate
     d = os.path.join(workdir, "c25-files")
     os.makedirs(d, exist_ok=True)
-    _state.update(dir=d, queue=queue, site=server.Site(static.File(d)), files=set(), pat={})
+    _state.update(dir=d, site=server.Site(static.File(d)), files=set(), pat={})
     return _state
 
 
@@ -226,7 +208,7 @@ def parse_multipart(body, ctype, mod, st):
 
 def run_case(cfg, workdir, rng=None, raw_header=None):
     """Send one real request; return the trace."""
-    from twisted.internet import address
+    from twisted.internet import _producer_helpers, address, task
     from twisted.internet.testing import StringTransport
 
     st = _setup(workdir)
@@ -239,8 +221,22 @@ def run_case(cfg, workdir, rng=None, raw_header=None):
     ch = st["site"].buildProtocol(address.IPv4Address("TCP", "10.0.0.1", 40000))
     tr = StringTransport()
     exc = ""
-    queue = st["queue"]
-    del queue[:]
+    # the harness's stand-in for the reactor loop: a FIFO of scheduled calls (fresh Cooperator per request), pumped one
+    # call at a time and bounded -- a producer that never finishes must not hang the check: it is an observation (done = False)
+    queue = []
+
+    class _Call:
+        def __init__(self, f):
+            self.f, self.cancelled = f, False
+
+        def cancel(self):
+            self.cancelled = True
+
+    def schedule(f):
+        c = _Call(f)
+        queue.append(c)
+        return c
+    _producer_helpers.cooperate = task.Cooperator(scheduler=schedule, terminationPredicateFactory=lambda: (lambda: True)).cooperate
     try:
         ch.makeConnection(tr)
         ch.dataReceived(msg)
@@ -435,7 +431,10 @@ def run(ctx):
     _report(ctx, traces, rej)
     bad = {x.idx for x in rej}
     good = [t for i, t in enumerate(traces) if i not in bad and t["cfg"]["hdr"]["present"] and t["ev"][0]["status"] == 206]
-    ctx.selftest_rejects("RangeReqTrace", good[::max(1, len(good) // 60)], mutate, n=24)
+    if good or not ctx.violations:
+        ctx.selftest_rejects("RangeReqTrace", good[::max(1, len(good) // 60)], mutate, n=24)
+    else:
+        ctx.log("selftest skipped: no accepted 206 response to corrupt (violations reported above)")
 
 
 def replay(ctx, obj):
